@@ -19,6 +19,7 @@ import (
 	"github.com/emicklei/go-restful"
 	appsv1 "k8s.io/api/apps/v1"
 	corev1 "k8s.io/api/core/v1"
+	extv1 "k8s.io/apiextensions-apiserver/pkg/apis/apiextensions/v1"
 	extfake "k8s.io/apiextensions-apiserver/pkg/client/clientset/clientset/fake"
 	extlisters "k8s.io/apiextensions-apiserver/pkg/client/listers/apiextensions/v1"
 	apierrors "k8s.io/apimachinery/pkg/api/errors"
@@ -404,6 +405,15 @@ func (w *World) SetPoolObj(name string, size int) {
 	p := &v1alpha1.Pool{ObjectMeta: metav1.ObjectMeta{Name: name, Namespace: "kube-system"}, Size: size}
 	w.PoolObjs[name] = p
 	_ = w.poolIdx.Update(p.DeepCopy())
+}
+
+// AddCRD puts a CustomResourceDefinition with a scale subresource into the extension informer cache (a TApp-like workload kind).
+func (w *World) AddCRD(kind, group, version, plural string) {
+	c := &extv1.CustomResourceDefinition{ObjectMeta: metav1.ObjectMeta{Name: plural + "." + group},
+		Spec: extv1.CustomResourceDefinitionSpec{Group: group, Names: extv1.CustomResourceDefinitionNames{Kind: kind, Plural: plural},
+			Versions: []extv1.CustomResourceDefinitionVersion{{Name: version, Served: true, Storage: true,
+				Subresources: &extv1.CustomResourceSubresources{Scale: &extv1.CustomResourceSubresourceScale{SpecReplicasPath: ".spec.replicas", StatusReplicasPath: ".status.replicas"}}}}}}
+	_ = w.crdIdx.Update(c)
 }
 
 // Reserve creates a labelled FloatingIP object (administrator) and queues the watch event.
